@@ -483,7 +483,7 @@ func runC12(h *H) {
 					}
 					respond(batch[pi], randStatus())
 				}
-			case r == 9 && oState == 1:
+			case r >= 8 && oState == 1:
 				// LOGIN whose literal the server refuses with a tagged NO or BAD: the command fails
 				// with that status and nothing else changes
 				st := 1 + rng.Intn(2)
@@ -491,6 +491,7 @@ func runC12(h *H) {
 				refusal = []string{"", "NO literal refused", "BAD [TOOBIG] literal refused"}[st]
 				refusalMu.Unlock()
 				hd := s.submit("login-lit", 0)
+				h.Hist("step:login-literal-refused")
 				ev("EvSubmit KLogin")
 				s.waitReceived(len(s.handles))
 				transcript = append(transcript, fmt.Sprintf("S: T%d %s (in answer to the literal header)", hd.tag, []string{"", "NO", "BAD"}[st]))
